@@ -24,7 +24,7 @@ MAL = [b'2', b'5', b' ', b'-', b'x', b'\r', b'\n', b'\xff']
 POOL = [('250', 'ok'), ('250', 'first\r\nsecond'), ('550', '5.1.1 no such user'), ('354', 'go'),
         ('421', '4.4.2 bye\n'), ('250', ''), ('451', 'a\n\nb'), ('250', '-x\r\n-')]
 
-RULE = ('A: every code 200..599 x 10 texts (incl. ESC look-alikes of classes 1, 3, 6 and malformed ones); B: code 250 x every text (and codes 354/450/550/421 x every text of <= 3 units, <= 4 in thorough) over 8 units '
+RULE = ('A: every code 200..599 x 12 texts (incl. U+FEFF first / inside, ESC look-alikes of classes 1, 3, 6 and malformed ones); B: code 250 x every text (and codes 354/450/550/421 x every text of <= 3 units, <= 4 in thorough) over 8 units '
         '{a,SP,CR,LF,-,e-acute,"2.1.0 ","5.0.0 "} up to 4 (quick) / 5 (thorough) units, first unit not white '
         'space; C: every sequence of 1..2 replies from a pool of 8 and every sequence of 3 from a pool of 3 (quick) / 8 (thorough), reading 1..k of them (exact consumption); '
         'all under ALL segmentations of the wire stream (continuation-merged). D: every byte string over '
@@ -307,7 +307,9 @@ def texts(maxu):
 
 TEXTS_A = ['ok', 'two\r\nlines', '2.1.0 esc', '5.0.0 wrongclass\n',
            # tokens that look like an enhanced status code but are not one (class outside 2/4/5, too few or too many fields)
-           '3.1.4 is pi', '1.2.3 x', '6.0.0 y', '2.1 short', '4.7.1.9 long', '5.1.1']
+           '3.1.4 is pi', '1.2.3 x', '6.0.0 y', '2.1 short', '4.7.1.9 long', '5.1.1',
+           # U+FEFF is an ordinary character of the text, also in first position
+           '\ufeffbom first', 'bom\ufeff inside']
 
 
 ELINES = [b'250-a', b'250 a', b'251-b', b'251 b', b'550-c', b'550 c', b'25x d', b'250-', b'250\tt']
@@ -329,7 +331,7 @@ def run_config(cfg, tier, seed):
     if part == 'A':
         for code in range(cfg['lo'], cfg['hi']):
             for t in TEXTS_A:
-                for esc_false in ((False, True) if t in ('ok', '2.1.0 esc') else (False,)):
+                for esc_false in ((False, True) if t in ('ok', '2.1.0 esc', '\ufeffbom first') else (False,)):
                     for v in check_roundtrip([(str(code), t)], 1, res, esc_false):
                         res.violation(*v)
                 res.interesting((code, t))
